@@ -55,6 +55,118 @@ pub struct Spec {
     /// path "interleaved": pipelines whose publish_mt converts in place (source field == target field)
     #[serde(default)]
     pub in_place: Vec<usize>,
+    /// adversarial draws: (n-th pinnable generator node of the scenario, choice) — that generator
+    /// "draws" a boundary value of its own range (a BIC starting with XXX, an all-digit
+    /// alphanumeric with a leading zero, the smallest number of a range, …) instead of a random one
+    #[serde(default)]
+    pub pins: Vec<(usize, usize)>,
+}
+
+/// A legal extreme of a datafake generator's range, or None if the generator is not one whose
+/// range is modelled here (ranges read off datafake-rs 0.2.1 `operators/fake.rs`).
+fn boundary_draw(args: &[Value], choice: usize) -> Option<Value> {
+    let kind = args.first()?.as_str()?;
+    let s = |x: String| Some(Value::String(x));
+    match kind {
+        // [A-Z]{3}[AEIOU]<ISO 3166 country>[A-Z]1
+        "bic8" => s(["XXXAUSM1", "AAAEADA1", "ZZZUZWZ1", "NOSOUSX1", "XXXEBWL1", "BICAFRB1"][choice % 6].to_string()),
+        "alphanumeric" => {
+            let lo = args.get(1).and_then(|v| v.as_u64()).unwrap_or(10) as usize;
+            let hi = args.get(2).and_then(|v| v.as_u64()).unwrap_or(lo as u64) as usize;
+            let len = if choice % 2 == 0 { lo } else { hi };
+            let len = len.max(1);
+            match (choice / 2) % 5 {
+                0 => s(format!("00{}", "1234567890123456789012345678901234".chars().take(len.saturating_sub(2)).collect::<String>()).chars().take(len).collect()),
+                1 => s("0".repeat(len)),
+                2 => s("Z".repeat(len)),
+                3 => s("9".repeat(len)),
+                _ => s(format!("0{}", "A".repeat(len - 1))),
+            }
+        }
+        "u8" | "u16" | "u32" | "u64" | "i8" | "i16" | "i32" | "i64" => {
+            if args.len() != 3 {
+                return None;
+            }
+            let (lo, hi) = (args[1].as_i64()?, args[2].as_i64()?);
+            let mut cands = vec![lo, hi, (lo + 1).min(hi), (hi - 1).max(lo)];
+            let mut p = 10i64;
+            while p <= hi && p > 0 {
+                if p >= lo {
+                    cands.push(p);
+                }
+                if p - 1 >= lo && p - 1 <= hi {
+                    cands.push(p - 1);
+                }
+                p = p.saturating_mul(10);
+            }
+            Some(json!(cands[choice % cands.len()]))
+        }
+        // <country><check 10..98><18 digits>
+        "iban" => {
+            let c = args.get(1).and_then(|v| v.as_str()).unwrap_or("DE");
+            s(match choice % 3 {
+                0 => format!("{c}10{}", "0".repeat(18)),
+                1 => format!("{c}98{}", "9".repeat(18)),
+                _ => format!("{c}55000000000000000001"),
+            })
+        }
+        // 18 of [0-9A-Z] + check 10..98
+        "lei" => s(match choice % 3 {
+            0 => format!("{}10", "0".repeat(18)),
+            1 => format!("{}98", "Z".repeat(18)),
+            _ => "000000000000000000A55".chars().take(18).collect::<String>() + "55",
+        }),
+        _ => None,
+    }
+}
+
+/// Paths of the scenario's pinnable `{"fake": [...]}` nodes, in document order.
+fn pinnable(v: &Value, path: &mut Vec<String>, out: &mut Vec<Vec<String>>) {
+    match v {
+        Value::Object(o) => {
+            if let Some(Value::Array(a)) = o.get("fake") {
+                if o.len() == 1 && boundary_draw(a, 0).is_some() {
+                    out.push(path.clone());
+                    return;
+                }
+            }
+            for (k, x) in o {
+                path.push(k.clone());
+                pinnable(x, path, out);
+                path.pop();
+            }
+        }
+        Value::Array(a) => {
+            for (i, x) in a.iter().enumerate() {
+                path.push(i.to_string());
+                pinnable(x, path, out);
+                path.pop();
+            }
+        }
+        _ => {}
+    }
+}
+
+fn apply_pins(scenario: &Value, pins: &[(usize, usize)]) -> (Value, usize) {
+    let mut v = scenario.clone();
+    let mut nodes = vec![];
+    pinnable(&v, &mut vec![], &mut nodes);
+    let mut applied = 0;
+    if nodes.is_empty() {
+        return (v, 0);
+    }
+    for (nth, choice) in pins {
+        let path = &nodes[nth % nodes.len()];
+        let ptr = format!("/{}", path.iter().map(|k| k.replace('~', "~0").replace('/', "~1")).collect::<Vec<_>>().join("/"));
+        let args = v.pointer(&ptr).and_then(|n| n.get("fake")).and_then(|a| a.as_array()).cloned();
+        if let (Some(args), Some(slot)) = (args, v.pointer_mut(&ptr)) {
+            if let Some(b) = boundary_draw(&args, *choice) {
+                *slot = b;
+                applied += 1;
+            }
+        }
+    }
+    (v, applied)
 }
 
 pub struct C15;
@@ -563,14 +675,15 @@ impl Engine for C15 {
             diag: wl.chance(1, 3),
             tz,
             in_place,
+            pins: if path != "sample" && wl.chance(1, 3) { (0..1 + wl.below(2)).map(|_| (wl.below(1000), wl.below(1000))).collect() } else { vec![] },
         }
     }
 
     fn execute(env: &Env, spec: &Spec) -> (Outcome, Option<Spec>) {
         let mut out = Outcome::default();
         out.log.push(format!(
-            "run_seed={} engine=pipeline path={} scenario={} entropy={} {} tz={} diag={} in_place={:?}",
-            spec.run_seed, spec.path, spec.scenario, hex(spec.entropy_seed), spec.clock.describe(), spec.tz.as_deref().unwrap_or("UTC"), spec.diag, spec.in_place
+            "run_seed={} engine=pipeline path={} scenario={} entropy={} {} tz={} diag={} in_place={:?} pins={:?}",
+            spec.run_seed, spec.path, spec.scenario, hex(spec.entropy_seed), spec.clock.describe(), spec.tz.as_deref().unwrap_or("UTC"), spec.diag, spec.in_place, spec.pins
         ));
         let Some(sc) = scen::find(&env.scenarios, &spec.scenario).cloned() else {
             out.harness_error = Some(format!("scenario {} not found", spec.scenario));
@@ -583,6 +696,12 @@ impl Engine for C15 {
         let ctx2 = ctx.clone();
         let path = spec.path.clone();
         let mut o2 = out.clone();
+        let mut sc = sc;
+        if !spec.pins.is_empty() && spec.path != "sample" {
+            let (v, n) = apply_pins(&sc.value, &spec.pins);
+            sc.value = v;
+            out.count("config.adversarial_draw_pinned", n as u64);
+        }
         let mut scs = vec![sc.clone()];
         for r in &spec.more_pipelines {
             match scen::find(&env.scenarios, r) {
@@ -603,7 +722,7 @@ impl Engine for C15 {
         if spec.tz.is_some() {
             out.count("config.local_time_zone_not_utc", 1);
         }
-        let mut o2 = { let mut o = o2; o.counters = out.counters.clone(); o };
+        let mut o2 = { let mut o = o2; o.counters = out.counters.clone(); o.log = out.log.clone(); o };
         let res = on_fresh_thread(move || {
             let _a = seam::attach(&ctx2);
             let _ = std::collections::hash_map::RandomState::new();
@@ -688,6 +807,11 @@ impl Engine for C15 {
         if spec.tz.is_some() {
             let mut s = spec.clone();
             s.tz = None;
+            v.push(s);
+        }
+        for k in 0..spec.pins.len() {
+            let mut s = spec.clone();
+            s.pins.remove(k);
             v.push(s);
         }
         if !spec.in_place.is_empty() {
